@@ -30,6 +30,9 @@ META = {
  "C28": ("TLC compares the observer map with the reference model's access sets and evaluates ObsProp on logged marks vs. the full memory diff (TV_Machine)",
          "After every event the whole observer map (READ/WRITTEN/MODIFIED per address) must equal what Machine!StepIn computes; ObsProp additionally states on the logged data alone that MODIFIED implies WRITTEN, every non-I/O word whose value changed is WRITTEN+MODIFIED and a WRITTEN-only word did not change; host accesses through untracked contexts must not alter the map.",
          "READ marks at I/O addresses are compared as the code produces them (the property exempts them).", "5 (C28)"),
+ "C13": ("TLC trace validation of run-style calls against Run!RunCall (iterated Machine!StepF with first-stop-condition) + relational check segmented vs. unbroken execution (TV_Pairs)",
+         "Every run, run_with_limit, step_over, step_out and run_while call of recorded sessions is validated by TLC against Run!RunCall, which is by construction repeated single steps up to the first instruction boundary where a documented stop condition holds (halt, error, breakpoint after an executed step, limit, tripwire, depth, MCR cleared); the number of steps, the outcome, the pause reason and the complete projection must match. Segmented executions (random pauses) are paired with one unbroken run and must end in the same state and instruction count.",
+         "MCR clears by another thread are modelled at poll granularity (a harness device clears the flag during a chosen poll).", "5 (C13)"),
  "C14": ("TLC relational validation of lockstep strict/non-strict pairs of real runs (TV_Pairs) + StrictRel evaluated by TLC from every validated state (TV_Machine)",
          "Real simulators are driven in lockstep from identical states with strict mode off and on; TLC checks on the logged pair, step by step, that the strict run either fails with one of the nine strict errors or has exactly the non-strict outcome and projection (registers, PC, PSR, saved SP, memory diff, device buffers, instruction count, observer), and that on fully initialized machines no strict error occurs. Inside the specification, StrictRel evaluates both StepF variants from every validated machine state.",
          "Relation evaluated on logged data only; fully-initialized runs are not value-validated against Machine.", "5 (C14)"),
